@@ -175,6 +175,22 @@ impl Unit {
     }
 
     /// Used internally to determine if two units are comparable or not
+    /// The unit that values of this unit's dimension are compared in, if the
+    /// unit is convertible at all
+    pub(crate) fn canonical(&self) -> Option<Unit> {
+        match self.kind() {
+            UnitKind::Absolute => Some(Unit::Px),
+            UnitKind::Angle => Some(Unit::Deg),
+            UnitKind::Time => Some(Unit::S),
+            UnitKind::Frequency => Some(Unit::Hz),
+            UnitKind::Resolution => Some(Unit::Dppx),
+            UnitKind::FontRelative
+            | UnitKind::ViewportRelative
+            | UnitKind::Other
+            | UnitKind::None => None,
+        }
+    }
+
     fn kind(&self) -> UnitKind {
         match self {
             Unit::Px | Unit::Mm | Unit::In | Unit::Cm | Unit::Q | Unit::Pt | Unit::Pc => {
